@@ -694,6 +694,11 @@ pub struct BurstCase {
     /// caller whose timeout expired); entries sent afterwards must still be merged and emitted
     #[serde(default)]
     pub cancelled_flush: bool,
+    /// two flush requests from two handles overlap: A is requested while the worker is stalled,
+    /// more entries are sent, then B is requested; when B completes everything sent before it must
+    /// have been emitted (A's completion says nothing about those entries)
+    #[serde(default)]
+    pub overlapping_flush: bool,
 }
 
 pub fn check_worker_burst(case: &BurstCase) -> CaseResult {
@@ -746,7 +751,50 @@ pub fn check_worker_burst(case: &BurstCase) -> CaseResult {
         let _ = crate::bq::poll_once(f.as_mut());
         drop(f);
     }
+    let overlapping = case.overlapping_flush && !case.cancelled_flush;
+    let sink_a = sink.clone();
+    let sink_b = sink.clone();
+    let mut flush_a = None;
+    if overlapping {
+        let mut f = Box::pin(sink_a.flush());
+        let _ = crate::bq::poll_once(f.as_mut());
+        flush_a = Some(f);
+        for j in 0..5u32 {
+            let i = In { word: 2, n: 1, total: 2000 + j, last: j, lat_ms: 9, dist: 4 };
+            sink.send(i.item().close());
+            all.entry(i.key()).or_default().add(&i);
+            late.push(i);
+        }
+        // request B is issued (registered by its first poll) while A is still in flight
+        let mut fb = Box::pin(sink_b.flush());
+        let _ = crate::bq::poll_once(fb.as_mut());
+        hold.store(false, Ordering::SeqCst);
+        let done = no_panic("worker-overlapping-flushes", || crate::bq::block_on_timeout(fb, Duration::from_secs(30)))?;
+        if done.is_none() {
+            return Ok(vec!["inconclusive-timeout"]);
+        }
+        // B's completion is the barrier for everything sent before B was requested
+        let got = out.out.lock().unwrap().clone();
+        let mut emitted: BTreeMap<(String, u8), usize> = BTreeMap::new();
+        for (_, a) in &got {
+            *emitted.entry((a.word.clone().unwrap_or_default(), a.n.unwrap_or(255) as u8)).or_default() += expand(&a.lat).len();
+        }
+        for (k, acc) in &all {
+            let e = emitted.get(k).copied().unwrap_or(0);
+            vensure!(
+                e == acc.count,
+                if e < acc.count { "agg:flush-completed-before-earlier-entries-were-emitted" } else { "agg:input-double-counted" },
+                "flush B (requested from a second handle while flush A was in flight, 5 entries sent between the two requests) completed with {e} of {} observations of key {k:?} emitted",
+                acc.count
+            );
+        }
+    }
     hold.store(false, Ordering::SeqCst);
+    if let Some(f) = flush_a {
+        if crate::bq::block_on_timeout(f, Duration::from_secs(30)).is_none() {
+            return Ok(vec!["inconclusive-timeout"]);
+        }
+    }
     if case.cancelled_flush {
         // the worker serves the abandoned request; whatever is sent afterwards still counts
         std::thread::sleep(Duration::from_millis(2));
@@ -789,8 +837,11 @@ pub fn check_worker_burst(case: &BurstCase) -> CaseResult {
         );
     }
     let mut classes: Classes = vec!["nt"];
-    if !late.is_empty() {
+    if !late.is_empty() && case.cancelled_flush {
         classes.push("entries-sent-after-a-cancelled-flush");
+    }
+    if overlapping {
+        classes.push("overlapping-flushes-from-two-handles");
     }
     if n > 1024 {
         classes.push("more-than-1024-queued");
@@ -1333,10 +1384,10 @@ pub fn run(ctx: &mut Ctx) {
         )
         .threads(ctx.tier.pick(4, 8))
         .shrink_iters(12)
-        .mandatory(&["more-than-1024-queued", "more-than-8192-queued", "entries-sent-after-a-cancelled-flush"]),
+        .mandatory(&["more-than-1024-queued", "more-than-8192-queued", "entries-sent-after-a-cancelled-flush", "overlapping-flushes-from-two-handles"]),
         || {
-            (prop_oneof![2u16..1500, 1025u16..9000, 8193u16..20000], any::<u8>(), any::<u32>(), any::<bool>())
-                .prop_map(|(n, producers, seed, cancelled_flush)| BurstCase { n, producers, seed, cancelled_flush })
+            (prop_oneof![2u16..1500, 1025u16..9000, 8193u16..20000], any::<u8>(), any::<u32>(), any::<bool>(), any::<bool>())
+                .prop_map(|(n, producers, seed, cancelled_flush, overlapping_flush)| BurstCase { n, producers, seed, cancelled_flush, overlapping_flush })
         },
         check_worker_burst,
     );
